@@ -108,6 +108,10 @@ func mapRanges(g *load.G, suffixes []string, skipFile func(string) bool) []range
 // assignment targets whose base is not defined inside the body (a container created in the body is fresh in every
 // iteration). Variables of the enclosing function are rendered by their type, fields and package-level names by name.
 func effectSignature(p *packages.Package, body *ast.BlockStmt) string {
+	return effectSignatureD(p, body, map[*ast.FuncDecl]bool{})
+}
+
+func effectSignatureD(p *packages.Package, body *ast.BlockStmt, expanding map[*ast.FuncDecl]bool) string {
 	info := p.TypesInfo
 	calls, writes := map[string]bool{}, map[string]bool{}
 	var enclosing *ast.FuncDecl
@@ -164,6 +168,35 @@ func effectSignature(p *packages.Package, body *ast.BlockStmt) string {
 		case *ast.CallExpr:
 			switch cn := callName(x); cn {
 			case "len", "cap", "append", "make", "min", "max", "string":
+			case "maps.DeleteFunc":
+				// deletion of the entries a predicate selects: the effect of `delete` in a loop over the map, provided
+				// the predicate only reads (no call, no store outside its own locals)
+				pureLit := false
+				if len(x.Args) == 2 {
+					if fl, ok := x.Args[1].(*ast.FuncLit); ok {
+						pureLit = true
+						ast.Inspect(fl.Body, func(m ast.Node) bool {
+							switch y := m.(type) {
+							case *ast.CallExpr:
+								if n := callName(y); n != "len" && n != "cap" {
+									pureLit = false
+								}
+							case *ast.AssignStmt:
+								if y.Tok != token.DEFINE {
+									pureLit = false
+								}
+							case *ast.IncDecStmt:
+								pureLit = false
+							}
+							return true
+						})
+					}
+				}
+				if pureLit {
+					calls["delete"] = true
+					return false
+				}
+				calls[cn] = true
 			case "":
 				calls["?"] = true
 			default:
@@ -175,6 +208,38 @@ func effectSignature(p *packages.Package, body *ast.BlockStmt) string {
 					}
 					if fn, ok := info.ObjectOf(id).(*types.Func); ok && fn.Pkg() == p.Types && sideEffectFree(p, fn.Name(), 0) {
 						return true
+					}
+					// a small helper of the package does what its body does (`unset(m, a, b)` deletes)
+					if fn, ok := info.ObjectOf(id).(*types.Func); ok && fn.Pkg() == p.Types {
+						var hd *ast.FuncDecl
+						for _, f := range p.Syntax {
+							for _, d := range f.Decls {
+								if x, ok := d.(*ast.FuncDecl); ok && x.Body != nil && x.Recv == nil && info.Defs[x.Name] == fn {
+									hd = x
+								}
+							}
+						}
+						if hd != nil && !expanding[hd] && len(hd.Body.List) <= 6 {
+							expanding[hd] = true
+							sub := effectSignatureD(p, hd.Body, expanding)
+							delete(expanding, hd)
+							okSub := true
+							for _, part := range strings.Fields(sub) {
+								switch {
+								case strings.HasPrefix(part, "calls="):
+									for _, c := range strings.Split(strings.TrimPrefix(part, "calls="), ",") {
+										calls[c] = true
+									}
+								default:
+									okSub = false // stores of the helper: keep the call itself as the effect
+								}
+							}
+							if okSub {
+								return true
+							}
+							calls[cn] = true
+							return true
+						}
 					}
 					if obj := info.ObjectOf(id); obj != nil {
 						if _, isVar := obj.(*types.Var); isVar {
